@@ -263,6 +263,20 @@ theorem sameLayout_fill (m : AbstractModel) (h : WF m = true) (fs : List DeclFil
   · simp [encodeMdlF]
   · rw [← length_headers m, List.length_append, List.length_append, length_encModelDataF m h fs hfs]
 
+/-- … and so has that file followed by arbitrary bytes (the reader never looks behind the sections
+it addresses): an instance of `SameLayout` that is neither `encodeMdl m` nor `encodeMdlF m fs` -/
+theorem sameLayout_fill_append (m : AbstractModel) (h : WF m = true) (fs : List DeclFill)
+    (hfs : declFillsOk (modelData m).decls fs = true) (t : Bytes) :
+    SameLayout m (encodeMdlF m fs ++ t) := by
+  have e : encodeMdlF m fs ++ t = encFileHeader (fileHeader m) ++
+      (encModelDataF m.version (modelData m) fs ++ (sections m ++ t)) := by
+    simp [encodeMdlF]
+  refine ⟨⟨_, _, by rw [e]; exact parseFileHeader_enc _ _,
+    parseModelData_encF (fileHeader m) (modelData m) (wf_modelDataOk m h) fs hfs (sections m ++ t)⟩,
+    encFileHeader (fileHeader m) ++ encModelDataF m.version (modelData m) fs, t, ?_, ?_⟩
+  · rw [e]; simp
+  · rw [← length_headers m, List.length_append, List.length_append, length_encModelDataF m h fs hfs]
+
 /-- **parse ∘ encode with arbitrary don't-care bytes in the declaration blocks**, outside the
 recorded `(BlendWeights, Byte4)` class: the same result as on the zero-filled file -/
 theorem parse_encodeF (m : AbstractModel) (h : WF m = true) (hw : noWeightsByte4 m = true)
